@@ -134,8 +134,10 @@ class ServeManifest(RequestHandlerBase):
                         not isinstance(options.availabilityStartTime, datetime.datetime)):
                     # a time of day only selects a refresh of a live manifest
                     continue
-                tm = options.availabilityStartTime.replace(
-                    hour=pos.hour, minute=pos.minute, second=pos.second)
+                # the time of day is a UTC time
+                tm = options.availabilityStartTime.astimezone(UTC()).replace(
+                    hour=pos.hour, minute=pos.minute, second=pos.second,
+                    microsecond=0)
                 tm2 = tm + datetime.timedelta(
                     seconds=(context['mpd'].minimumUpdatePeriod or 0))
                 if context['mpd'].now < tm or context['mpd'].now > tm2:
